@@ -293,8 +293,8 @@ std_stubs! { #[kani::unwind(10)] pub(crate) fn s_strip_n6() { s_strip::<6>() } }
 
 //@ harness: s_strip_n8
 //@ props: C14
-//@ tier: thorough
-//@ cost: 600
+//@ tier: quick
+//@ cost: 60
 //@ slice: c14_strip
 //@ bound: the x-flag stripper block of ReCompiler::compile (verbatim slice; Vec -> BVec stand-in) on EVERY pattern text of <= 8 chars over all scalar values without an unmatched ']': output = input minus TAB/LF/CR/SP at class depth 0 of the stripped text; nothing else removed
 //@ encodes: ReCompiler::compile(x-flag-stripper-slice)
